@@ -172,8 +172,24 @@ func checkPrefixSubOpcodeDecoding(c *core.Ctx) {
 					leb := false
 					ast.Inspect(arm, func(w ast.Node) bool {
 						if call, ok := w.(*ast.CallExpr); ok && call.Pos() < sw.Body.Pos() {
-							if f := core.Callee(info, call); f != nil && f.Name() == "LoadUint32" {
-								leb = true
+							if f := core.Callee(info, call); f != nil {
+								if f.Name() == "LoadUint32" {
+									leb = true
+								}
+								// a one-level helper of the package that decodes it
+								core.AllFuncDecls(p, func(g *ast.FuncDecl) {
+									if info.Defs[g.Name] != types.Object(f) || g == fd {
+										return
+									}
+									ast.Inspect(g.Body, func(v ast.Node) bool {
+										if c2, ok := v.(*ast.CallExpr); ok {
+											if f2 := core.Callee(info, c2); f2 != nil && f2.Name() == "LoadUint32" {
+												leb = true
+											}
+										}
+										return true
+									})
+								})
 							}
 						}
 						return true
@@ -324,41 +340,59 @@ func checkTailCallResultTypes(c *core.Ctx) {
 			if name != "OpcodeTailCallReturnCall" && name != "OpcodeTailCallReturnCallIndirect" {
 				return true
 			}
-			// only the validator's branches: they require the feature
-			requires := false
+			// the branch body with the bodies of package-level helpers it calls spliced in (one level)
+			bodies := []ast.Node{is.Body}
 			ast.Inspect(is.Body, func(y ast.Node) bool {
 				if call, ok := y.(*ast.CallExpr); ok {
-					if f := core.Callee(info, call); f != nil && f.Name() == "RequireEnabled" {
-						requires = true
+					if f := core.Callee(info, call); f != nil {
+						core.AllFuncDecls(p, func(g *ast.FuncDecl) {
+							if info.Defs[g.Name] == types.Object(f) && g != fd {
+								bodies = append(bodies, g.Body)
+							}
+						})
 					}
 				}
 				return true
 			})
+			// only the validator's branches: they require the feature
+			requires := false
+			for _, b := range bodies {
+				ast.Inspect(b, func(y ast.Node) bool {
+					if call, ok := y.(*ast.CallExpr); ok {
+						if f := core.Callee(info, call); f != nil && f.Name() == "RequireEnabled" {
+							requires = true
+						}
+					}
+					return true
+				})
+			}
 			if !requires {
 				return true
 			}
 			n++
 			compares := false
-			ast.Inspect(is.Body, func(y ast.Node) bool {
-				call, ok := y.(*ast.CallExpr)
-				if !ok {
-					return true
-				}
-				f := core.Callee(info, call)
-				if f == nil || (f.Name() != "Equal" && f.Name() != "EqualsSignature") {
-					return true
-				}
-				res := 0
-				for _, a := range call.Args {
-					if strings.HasSuffix(core.ExprStr(a), ".Results") {
-						res++
+			for _, b := range bodies {
+				ast.Inspect(b, func(y ast.Node) bool {
+					call, ok := y.(*ast.CallExpr)
+					if !ok {
+						return true
 					}
-				}
-				if res >= 2 || (f.Name() == "EqualsSignature" && res >= 1) {
-					compares = true
-				}
-				return true
-			})
+					f := core.Callee(info, call)
+					if f == nil || (f.Name() != "Equal" && f.Name() != "EqualsSignature") {
+						return true
+					}
+					res := 0
+					for _, a := range call.Args {
+						if strings.HasSuffix(core.ExprStr(a), ".Results") {
+							res++
+						}
+					}
+					if res >= 2 || (f.Name() == "EqualsSignature" && res >= 1) {
+						compares = true
+					}
+					return true
+				})
+			}
 			c.Check(compares, "R03.15", "validator: "+name+" compares the callee's result types with the function's", is.Pos(),
 				"the two Results lists are compared for equality",
 				"only the operand stack is checked against the function's results after pushing the callee's: (func (result i32) i32.const 42 return_call $void) is accepted, and the engines then fail internally (slice bounds out of range in the interpreter, a garbage result – possibly used as a reference – in the compiler)")
